@@ -100,7 +100,9 @@ func (P *Prog) verifyFunc(fn *ssa.Function, c *Contract, cfgVal int, hasCfg bool
 		x.params[fv.Name()] = dv
 	}
 	// configuration coverage: the precondition implies that one of the configurations applies
-	if hasCfg && (cfgVal == c.Config.Lo || (quickTier && cfgVal == c.Config.QLo)) {
+	// (a contract marked partial declares that its configuration range does not exhaust the precondition;
+	// callers that use it record that as an assumption)
+	if hasCfg && c.Partial == "" && (cfgVal == c.Config.Lo || (quickTier && cfgVal == c.Config.QLo)) {
 		x.configCover(st, c, res.Name)
 	}
 	// configuration bindings
@@ -296,7 +298,7 @@ func (P *Prog) verifyFunc(fn *ssa.Function, c *Contract, cfgVal int, hasCfg bool
 			}
 			name += x.cfgSuffix
 			hy := append(append([]*Term{}, x.hyps...), final.pc, exc, Not(goal))
-			x.obls = append(x.obls, &Obligation{Name: name, Group: name, Func: res.Name, Kind: "finding", Hyps: hy, Cover: true, Props: c.Props,
+			x.obls = append(x.obls, &Obligation{Name: name, Group: name, Func: res.Name, Kind: "finding", Hyps: hy, Cover: true, Props: c.Props, FProp: f.Property,
 				Note: fmt.Sprintf("%s/%s: %s", res.Name, lbl, f.What), Watch: x.watch})
 			goal = Implies(Not(exc), goal)
 			note += "   [claimed outside the recorded finding: " + f.Except + "]"
